@@ -60,7 +60,9 @@ func (cx *Ctx) runC07() {
 	cx.phase("C07: main batch")
 	// one fresh worker process per spec: the K resolutions of a spec run one after the other in that process, so that
 	// whatever is found replays exactly (no dependence on what a pooled worker did before)
-	results := cx.simFresh.Run(jobs, nil)
+	batch := *cx.simFresh
+	batch.Deadline = time.Now().Add(cx.wallCap())
+	results := batch.Run(jobs, nil)
 	cx.phase("C07: analysing")
 	cx.slowest(results, 12)
 
